@@ -193,6 +193,31 @@ def run(tier, mode):
                                     else:
                                         rq = H.req('tractwriter', wt, atts, pre_exists, mode_ == 'a', nice_w, hp, wp, uid)
                                     cases.append((rq, ('ROWS', obs), {'writer': writer, 'atts': atts, 'desc': di, 'mode': mode_}))
+        # one writer used over several sessions (write, close, open, write): a new file gets its header once and every row of every session is kept
+        for mode_ in ('w', 'a'):
+            for di, tl in [(i_, d_.tracts) for i_, d_ in enumerate(descs)][:3]:
+                if not len(tl):
+                    continue
+                fi += 1
+                fp = os.path.join(scratch, f'g{fi}.csv')
+                atts = ['trs', 'desc']
+
+                def go2():
+                    w = TractWriter(atts, fp, mode_)
+                    w.write(tl)
+                    w.close()
+                    w.open()
+                    w.write(tl)
+                    w.close()
+                res = H.call(go2)
+                n_or += 1
+                bump('TractWriter_sessions')
+                rows = [] if isinstance(res, H.Exn) else read_csv(fp)
+                want_rows = [atts] + [[spec_cell(t.trs), spec_cell(t.desc)] for t in tl] * 2
+                if isinstance(res, H.Exn) or rows != want_rows:
+                    fail('csv_sessions', {'writer': 'TractWriter', 'desc': di, 'mode': mode_}, res if isinstance(res, H.Exn) else rows[:4], want_rows[:4])
+                if os.path.exists(fp):
+                    os.remove(fp)
         parts = {}
         if cases:
             got = H.run_model([c[0] for c in cases if c[0] != 'bad'])
